@@ -277,10 +277,14 @@ def run_harness(pid, cfg, tier, seed, outdir, extra=None):
 M_RE = re.compile(r"M\s*=\s*(\[[^\]]*\])", re.S)
 
 
+EVAL_TIMEOUT = 400      # per shard; raised to 1500 s in the thorough tier (main)
+
+
 def eval_case_file(outdir, fn):
-    rc, out = sh(["timeout", "1500", "coqc", "-Q", COQ, "X", "-w", "-notation-overridden", fn], cwd=outdir, timeout=1530)
+    to = EVAL_TIMEOUT
+    rc, out = sh(["timeout", str(to), "coqc", "-Q", COQ, "X", "-w", "-notation-overridden", fn], cwd=outdir, timeout=to + 30)
     if rc == 124 and not out.strip():
-        out = "coqc did not finish within 1500 s on this shard (machine under load or shard too large)"
+        out = "coqc did not finish within %d s on this shard (machine under load or shard too large)" % to
     m = M_RE.search(out)
     if rc != 0 or not m:
         return fn, None, out[-2000:]
@@ -339,6 +343,9 @@ def main():
     if tier not in ("quick", "thorough"):
         tier = sys.argv[2]
     seed = int(os.environ.get("VERIF_SEED", "20260923"))
+    global EVAL_TIMEOUT
+    if tier == "thorough":
+        EVAL_TIMEOUT = 1500
     cfg = PROPS[pid]
     t0 = time.time()
     log = []
